@@ -1,0 +1,5 @@
+//go:build !verif
+
+package xixi_kv
+
+func verifPoint(string, uint32) {}
